@@ -373,6 +373,16 @@ def classify(case, impl, failure):
             ("f:00000000" in vals and "f:80000000" in vals) or
             ("d:0000000000000000" in vals and "d:8000000000000000" in vals)):
         return "signed-zero-run"
+    if f[3] != "0":
+        # the side conditions of C10_roundtrip_any_partial (PrettyProofs/ListProofs goodc)
+        for v in vals:
+            if v.startswith("i:") and abs(int(v[2:])) >= 1 << 30:
+                return "int-run-span-overflow"
+            if v.startswith("h:") and abs(int(v[2:])) >= 1 << 62:
+                return "int-run-span-overflow"
+        for v in vals:
+            if v[:2] in ("s:", "S:") and "2e2e2e" in v[2:] and bytes.fromhex(v[2:]).find(b"...") >= 0:
+                return "ellipsis-in-string-before-range"
     return None
 
 TECHNIQUE = ("Coq proofs about a token-level model of the printer, the syntax checker and the scanner "
@@ -385,6 +395,8 @@ LEVEL_TEXT = ("Partial. Model: printer (all scalar types, range conversion with 
               "(C10_roundtrip_partial, C10_print_total, C10_linebreak_transparent, C10_message_partial); the range conversion "
               "expands to the values it replaces (C10_range_expand: step runs of i/h/c with wrap-around, constant runs of "
               "every non-float scalar); both recognisers read NxV repetitions back (C10_repetition_reads_partial). The "
-              "model/implementation stream runs with compression on, arrays and messages.")
+              "model/implementation stream runs with compression on, arrays and messages. Stage 3: C10_roundtrip_any_partial - the "
+              "list-level round trip for EVERY option record (compression on or off) for int/char/keyword/string lists "
+              "(goodc), results compared by expansion.")
 LEVEL_NOTE = ("Trusted: Coq kernel, extraction, OCaml driver (incl. its libc oracle for decimal float literals), harness, "
               "generators. FloatFmt.v (printf %f/%a, hex literal value) is concrete but unproved. See notes/C10.md.")
